@@ -113,5 +113,5 @@ SIG_FORMS = ["p2pk", "p2pkh", "p2wpkh", "p2sh_p2wpkh", "tr_key", "ms_bare", "ms_
 SUBCHECKS = [
     SubCheck("final_stack", check_program, "one signature-free script over an initial stack (opcode families with boundary operands, lock times, conditionals on (non-)minimal truths, the 201-op / 520-byte / 1000-element / 10000-byte / 20-key limits from both sides, grammar scripts): the library's verify_script ends with Core's error or exactly Core's final stack; non-trivial: >=2 opcodes executed", gs.program_case, quick=9000, thorough=150000, max_buckets=8),
     SubCheck("programs", check_spend, "grammar-generated scripts in bare/P2SH/P2WSH/P2SH-P2WSH/tapscript form with optional signature checks; verdict vs Core model; non-trivial: model executed >=3 opcodes or reached a signature check", lambda: spend_case(SCRIPT_FORMS), quick=14000, thorough=250000, max_buckets=8),
-    SubCheck("templates", check_spend, "P2PK, P2PKH, P2WPKH, P2SH-P2WPKH, taproot key path, k-of-n multisig (bare/P2SH/P2WSH), unknown witness programs; signatures valid/high-s/lax-DER/wrong key/wrong message/empty/truncated with every hash type class; keys compressed/uncompressed/hybrid/malformed; scriptSig and witness malleations", lambda: spend_case(SIG_FORMS), quick=5000, thorough=80000, max_buckets=8),
+    SubCheck("templates", check_spend, "P2PK, P2PKH, P2WPKH, P2SH-P2WPKH, taproot key path, k-of-n multisig (bare/P2SH/P2WSH), unknown witness programs; signatures valid/high-s/lax-DER/wrong key/wrong message/empty/truncated with every hash type class; keys compressed/uncompressed/hybrid/malformed; scriptSig and witness malleations", lambda: spend_case(SIG_FORMS), quick=9000, thorough=120000, max_buckets=8),
 ]
